@@ -562,6 +562,11 @@ func (s *c10Sys) exec(op string) (res c10Result) {
 		}
 		fault = run(func() { _ = s.drv.FreeMemory(s.ctxs[ci], driver.Ptr(ptr)) })
 		out = "ok"
+		if fault == "" && b == nil {
+			// an invalid free that did not panic (e.g. a pointer into the middle of a buffer, which
+			// releases that single page): the ghost buffers do not follow; end the case afterwards
+			s.tainted = "rmpage"
+		}
 		if fault == "" && b != nil {
 			b.freed = true
 			post = func() (string, string) {
@@ -1048,9 +1053,16 @@ func b2i(b bool) int {
 
 // c10Scripted runs a fixed history (the witnesses of the refuted / repaired statements).
 func c10Scripted(r *Run, log2 uint64, cpu int, gpus []int, ops []string) string {
-	s := newC10Sys(log2, cpu, gpus, false, false)
+	return c10ScriptedB(r, log2, cpu, gpus, ops, false)
+}
+
+func c10ScriptedB(r *Run, log2 uint64, cpu int, gpus []int, ops []string, buddy bool) string {
+	s := newC10Sys(log2, cpu, gpus, false, buddy)
 	s.verbose = true
 	cfg := fmt.Sprintf("c10 l2=%d cpu=%d gpus=%s real=0 v=1", log2, cpu, idList(gpus))
+	if buddy {
+		cfg += " buddy=1"
+	}
 	return c10RunCase(r, cfg, s, func(s *c10Sys, step int) string {
 		if step < len(ops) {
 			return ops[step]
@@ -1082,7 +1094,7 @@ func runC10(r *Run, rng *Rng, replay string) {
 		for _, p := range parts[1:] {
 			ops = append(ops, strings.TrimSpace(p))
 		}
-		fmt.Println("sig:", c10Scripted(r, uint64(l2), cpu, gp, ops))
+		fmt.Println("sig:", c10ScriptedB(r, uint64(l2), cpu, gp, ops, kv["buddy"] == "1"))
 		return
 	}
 	// witnesses first (each is also a model case)
@@ -1106,8 +1118,8 @@ func runC10(r *Run, rng *Rng, replay string) {
 	n := 1200
 	nb := 150
 	if r.Tier == "thorough" {
-		n = 40000
-		nb = 4000
+		n = 15000
+		nb = 2000
 	}
 	for i := 0; i < n; i++ {
 		c10RandomCase(r, rng, i, false)
